@@ -439,9 +439,11 @@ def parseMonEmit? (note : String) : Option (Nat × SupEv) :=
 
 def addNew (l : List String) (x : String) : List String := if l.contains x then l else l ++ [x]
 
+/-- the STATE part of an observation line (statuses, runnable set, names): the first field is the events of the
+op and a trailing `tk=…` field lists the tree kills issued inside the op - both are per-op, not state -/
 def afterBar (s : String) : String :=
   match s.splitOn " | " with
-  | _ :: rest => " | ".intercalate rest
+  | _ :: rest => " | ".intercalate (rest.filter fun f => !f.startsWith "tk=")
   | [] => ""
 
 def step (which : Prop3) (st : St) (opLine impl : String) : St × StepOut :=
